@@ -11,6 +11,12 @@ ValSet == { [t |-> "i32", b |-> <<0,0,0,0>>], [t |-> "i32", b |-> <<255,255,255,
 ValSmall == { [t |-> "i32", b |-> <<4,3,2,1>>], [t |-> "i64", b |-> <<8,7,6,5,4,3,2,1>>],
               [t |-> "f64", b |-> <<0,0,0,0,0,0,248,63>>], [t |-> "bytes", b |-> <<97>>],
               [t |-> "bytes", b |-> <<>>] }
+\* every value token of the catalogue (Values.tla) for the typed entry points: +0 -0, NaN payloads, infinities,
+\* denormals, extreme integers - the typed wrappers must hash exactly the PLAIN bytes of the value
+VT == INSTANCE Values
+ValTyped == {[t |-> "i32", b |-> VT!Tok.t1[i]] : i \in 1..Len(VT!Tok.t1)} \cup {[t |-> "i64", b |-> VT!Tok.t2[i]] : i \in 1..Len(VT!Tok.t2)}
+            \cup {[t |-> "f32", b |-> VT!Tok.t4[i]] : i \in 1..Len(VT!Tok.t4)} \cup {[t |-> "f64", b |-> VT!Tok.t5[i]] : i \in 1..Len(VT!Tok.t5)}
+SizesTyped == {32, 1024}
 SizesQuick == {0, 33, 64, 1024}
 SizesThorough == {0, 1, 31, 32, 33, 64, 65, 100, 1024, 4096}
 
